@@ -110,9 +110,14 @@ func newVocab(users, roles, dbs, tbls []string) *Vocab {
 	return v
 }
 
+// acct renders an account name of the vocabulary: a role r is 'r' (= r@%), a user u is
+// 'u'@'localhost', and a user written "u@host" is 'u'@'host'.
 func (v *Vocab) acct(a string) string {
 	if v.isRole[a] {
-		return fmt.Sprintf("'%s'", a) // role: name@%
+		return fmt.Sprintf("'%s'", a)
+	}
+	if i := strings.Index(a, "@"); i >= 0 {
+		return fmt.Sprintf("'%s'@'%s'", a[:i], a[i+1:])
 	}
 	return fmt.Sprintf("'%s'@'localhost'", a)
 }
